@@ -171,6 +171,10 @@ func init() {
 		for i := range jobs {
 			jobs[i].BudgetS = b(100, 900)
 		}
+		// the panel's own periodic loop with one slow or failing round: reporting and termination go on
+		for _, f := range []string{"slow", "error"} {
+			jobs = append(jobs, vx.Job{Scenario: "panel.loop", Params: vx.P("fault", f, "at", "2"), Bound: 1, BudgetS: 100, Weight: 4})
+		}
 		return jobs
 	})
 }
